@@ -121,9 +121,61 @@ theorem emit_nodup : (emit s (s.groups.size + 2) 0).Nodup := by
   exact emitF_nodup b.n (final_ginv b hl) _ _
 end
 
-/-- the node list of a duplicate-free index list has pairwise different identifiers -/
+theorem innerIds_sub_fids (n : NodeM) {x : Uid} (h : x ∈ n.innerIds) : x ∈ n.fids := by
+  simp only [NodeM.fids, List.mem_append]; exact .inr h
+
+theorem uid_mem_fids (n : NodeM) (h : Invented n.uid) : n.uid ∈ n.fids := by
+  simp [NodeM.fids, uidPart, h]
+
+/-- **identifiers are used once**: in the node list selected by a duplicate-free index list, all
+identifiers are pairwise different as soon as the node identifiers are (the node identifiers are
+the only ones a sheet can dictate) -/
 theorem ids_nodup_of_idsInv {ns : Array NodeM} {bd : Nat} (hI : IdsInv ns bd) :
-    ∀ L : List Nat, L.Nodup → ((L.filterMap fun i => ns[i]?).flatMap NodeM.ids).Nodup := by
+    ∀ L : List Nat, L.Nodup → ((L.filterMap fun i => ns[i]?).map (·.uid)).Nodup →
+      ((L.filterMap fun i => ns[i]?).flatMap NodeM.ids).Nodup := by
+  intro L
+  induction L with
+  | nil => intro _ _; simp
+  | cons i L ih =>
+    intro hL hU
+    rw [List.nodup_cons] at hL
+    rcases hi : ns[i]? with _ | n
+    · simp only [List.filterMap_cons, hi] at hU ⊢; exact ih hL.2 hU
+    · simp only [List.filterMap_cons, hi, List.flatMap_cons, List.map_cons] at hU ⊢
+      rw [List.nodup_cons] at hU
+      have hfn := hI.nodup i n hi
+      have hin : n.innerIds.Nodup := by
+        unfold NodeM.fids at hfn; exact (List.nodup_append.mp hfn).2.1
+      have huin : n.uid ∉ n.innerIds := by
+        intro hm
+        have hinv : Invented n.uid := (hI.below i n hi _ (innerIds_sub_fids n hm)).invented
+        unfold NodeM.fids at hfn
+        have := (List.nodup_append.mp hfn).2.2 n.uid (by simp [uidPart, hinv]) n.uid hm
+        exact this rfl
+      rw [List.nodup_append]
+      refine ⟨by rw [NodeM.ids_eq, List.nodup_cons]; exact ⟨huin, hin⟩, ih hL.2 hU.2, ?_⟩
+      intro x hx y hy hxy
+      subst hxy
+      simp only [List.mem_flatMap, List.mem_filterMap] at hy
+      obtain ⟨m, ⟨j, hj, hjm⟩, hxm⟩ := hy
+      have hij : i ≠ j := fun e => hL.1 (e ▸ hj)
+      rw [NodeM.ids_eq, List.mem_cons] at hx hxm
+      rcases hx with hx | hx <;> rcases hxm with hxm | hxm
+      · -- two node identifiers
+        apply hU.1
+        simp only [List.mem_map, List.mem_filterMap]
+        exact ⟨m, ⟨j, hj, hjm⟩, by rw [← hxm, hx]⟩
+      · -- `x = n.uid` is an inner identifier of `m`: then it looks invented
+        have hinv : Invented n.uid := hx ▸ (hI.below j m hjm _ (innerIds_sub_fids m hxm)).invented
+        exact hij (hI.disj i j n m x hi hjm (hx ▸ uid_mem_fids n hinv) (innerIds_sub_fids m hxm))
+      · have hinv : Invented m.uid := hxm ▸ (hI.below i n hi _ (innerIds_sub_fids n hx)).invented
+        exact hij (hI.disj i j n m x hi hjm (innerIds_sub_fids n hx) (hxm ▸ uid_mem_fids m hinv))
+      · exact hij (hI.disj i j n m x hi hjm (innerIds_sub_fids n hx) (innerIds_sub_fids m hxm))
+
+/-- when every node identifier is an invented one, node identifiers are pairwise different -/
+theorem uids_nodup_of_invented {ns : Array NodeM} {bd : Nat} (hI : IdsInv ns bd)
+    (hinv : ∀ (i : Nat) (n : NodeM), ns[i]? = some n → Invented n.uid) :
+    ∀ L : List Nat, L.Nodup → ((L.filterMap fun i => ns[i]?).map (·.uid)).Nodup := by
   intro L
   induction L with
   | nil => intro _; simp
@@ -132,16 +184,15 @@ theorem ids_nodup_of_idsInv {ns : Array NodeM} {bd : Nat} (hI : IdsInv ns bd) :
     rw [List.nodup_cons] at hL
     rcases hi : ns[i]? with _ | n
     · simp only [List.filterMap_cons, hi]; exact ih hL.2
-    · simp only [List.filterMap_cons, hi, List.flatMap_cons]
-      rw [List.nodup_append]
-      refine ⟨hI.nodup i n hi, ih hL.2, ?_⟩
-      intro x hx y hy hxy
-      subst hxy
-      simp only [List.mem_flatMap, List.mem_filterMap] at hy
-      obtain ⟨m, ⟨j, hj, hjm⟩, hxm⟩ := hy
-      have : i = j := hI.disj i j n m x hi hjm hx hxm
-      subst this
-      exact hL.1 hj
+    · simp only [List.filterMap_cons, hi, List.map_cons]
+      rw [List.nodup_cons]
+      refine ⟨?_, ih hL.2⟩
+      intro hm
+      simp only [List.mem_map, List.mem_filterMap] at hm
+      obtain ⟨m, ⟨j, hj, hjm⟩, hu⟩ := hm
+      have : i = j := hI.disj i j n m n.uid hi hjm (uid_mem_fids n (hinv i n hi))
+        (hu ▸ uid_mem_fids m (hinv j m hjm))
+      exact hL.1 (this ▸ hj)
 
 theorem map_sublist_flatMap {α β} (f : α → β) (g : α → List β) (hg : ∀ x, ∃ t, g x = f x :: t) :
     ∀ l : List α, (l.map f).Sublist (l.flatMap g) := by
